@@ -264,6 +264,10 @@ theorem C14_empty_collection_is_supplied (h : Hdr) (e : Ty) (fp fa : FT) (v : Va
   · exact (hp (.list []) v (Or.inr (Or.inl ⟨e, rfl⟩))).2.2.2 rfl hv
   · exact (hp v (.list []) (Or.inr (Or.inl ⟨e, rfl⟩))).2.2.2 hv rfl
 
+/-- regenerated (F22): primary and alias variables are looked up by exact name through `os.LookupEnv`. -/
+theorem C14_environment_is_a_lookup : 1 ≤ Facts.envLookupCalls ∧ Facts.envOtherReads = 0 := by
+  decide
+
 /-- regenerated (F14m): the alias copy of a field is a field of the translated type like any other, with a flag name of
 its own; when that name (or the primary one) exists on the FlagSet already, registration is skipped but the name stays
 mapped to its field, so the four patterns hold for the second `flag.Set` over one FlagSet as for the first. -/
